@@ -360,4 +360,63 @@ example : blobToHdf5 ["config", "log", "metadata"] = (["config", "log", "metadat
   decide
 example : (blobToHdf5 ["results", "taxonomy_tree", "config"]).2.length > 1 := by decide
 
+/-! ## the property in its direct form, and the mapping end to end -/
+
+/-- the property in its direct form: in a well-formed stage, if some started
+worker ends with a non-zero exit code, the stage does not return normally
+(it raises, or - if that worker's exit code never becomes visible - waits) -/
+theorem failed_worker_never_ok (kind : Container) (prog : List Stmt) (hwf : wellFormed prog = true)
+    (env : Env) (hk : KeysOK kind env.keyOf) (sched : List Poll)
+    (hbad : ∃ w, w < (exec kind env prog { sched := sched }).state.started ∧ env.exit w ≠ 0) :
+    (exec kind env prog { sched := sched }).outcome ≠ .ok := by
+  intro hok
+  cases h : exec kind env prog { sched := sched } with
+  | ok s =>
+    rw [h] at hbad
+    obtain ⟨w, hw, hne⟩ := hbad
+    exact hne (skeleton_sound kind prog hwf env hk sched s h w hw)
+  | failed c s => rw [h] at hok; cases hok
+  | spin s => rw [h] at hok; cases hok
+
+/-- `run_mapping` on top of the regenerated mapping stage: the type assignment
+raises exactly when the stage machine fails -/
+def mappingRun (env : Env) (sched : List Poll) (csvRequested : Bool) : MappingWorld :=
+  runMapping
+    { assignRaises :=
+        match exec CTM.Generated.mapping.container env CTM.Generated.mapping.prog { sched := sched } with
+        | .failed _ _ => true
+        | _ => false
+      csvRequested := csvRequested }
+
+/-- end to end for the mapping: for every number of chunks, `n_processors`,
+schedule and exit-code assignment, if the poll loop of
+`run_type_assignment_on_h5ad_cpu` (as re-extracted from the source) raises
+because of a worker, then `run_mapping` raises, its JSON has no `results`, no
+CSV exists, the log is written without the success line; and the loop cannot
+return normally if a started worker has a non-zero exit code -/
+theorem mapping_end_to_end (env : Env) (sched : List Poll) (csv : Bool) :
+    let r := exec CTM.Generated.mapping.container env CTM.Generated.mapping.prog { sched := sched }
+    ((∃ w, w < r.state.started ∧ env.exit w ≠ 0) → r.outcome ≠ .ok) ∧
+    (∀ c s, r = .failed c s →
+      let w := mappingRun env sched csv
+      w.raised = true ∧ w.csv = false ∧ (∀ ks, w.json = some ks → "results" ∉ ks) ∧
+      (∃ l, w.logFile = some l ∧ LogLine.success ∉ l)) := by
+  constructor
+  · intro hbad
+    have hwf : wellFormed CTM.Generated.mapping.prog = true := by decide
+    have hk : KeysOK CTM.Generated.mapping.container env.keyOf := by
+      intro h; exact absurd h (by decide)
+    exact failed_worker_never_ok _ _ hwf env hk sched hbad
+  · intro c s hr
+    have hm := mapping_failure_output
+      { assignRaises := true, csvRequested := csv } rfl
+    simp only [mappingRun, hr]
+    obtain ⟨h1, h2, h3, _, _, h6⟩ := hm
+    exact ⟨h1, h2, h3, by
+      obtain ⟨l, hl, hs, _⟩ := h6 rfl
+      exact ⟨l, hl, hs⟩⟩
+
+example : (mappingRun { nItems := 3, nProc := 2, keyOf := id, exit := fun w => if w = 2 then -9 else 0 }
+    [[0], [1, 2], [1, 2]] true).raised = true := by decide
+
 end CTM.C14
